@@ -1,12 +1,177 @@
 import Driver.Util
-open Drv
+import Faithful.Lib.FirstSuccessSys
+import Std.Data.HashSet
+open Drv FS FSys
 
+/-!
+Model side of the C18 line protocol.
+
+  fs <limit> <outcomes> <order>     outcomes: `o<v>` / `e<k>` per job, comma separated ("-" = no job); order: job indices
+      → `res=<r> eff=<send order> maxrun=<k> allowed=<set>`
+        res/eff/maxrun: end state of `FSys.prioRun` (the schedule that realises the completion order under the limit)
+        allowed:        results of ALL schedules, by exhaustive exploration of `FSys.step` (n ≤ 5; "skip" above)
+  find <limit> <epochs>             epochs: `<num>:<kind>` (nb hf he hn hit fp), highest first ("-" = none)
+      → `class=<deterministic part> allowed=<set>`
+-/
 namespace DrvC18
 
-/-- model side of the C18 line protocol: one answer line per op line -/
+/-- all states reachable from `init`, level by level; the number of levels is the proven bound `5n+3` (+1 to see it is empty) -/
+structure Expl (V E : Type) where
+  results : List (Res V E) := []
+  states : Nat := 0
+  maxBuf : Nat := 0
+  badDead : Bool := false      -- a state without enabled action that is not `Final`
+  leftover : Bool := false     -- frontier not empty after 5n+3 levels
+
+def isFinal {V E : Type} (s : State V E) : Bool :=
+  (match s.main with | .done _ => true | _ => false) && s.running.isEmpty && s.sentq.isEmpty && s.relq.isEmpty && s.closed
+
+/-- `step` never reads the ghost field `log` and uses `sentq` / `relq` only through membership, `erase` and `length`;
+states that differ only there have the same futures, so they are explored once -/
+def normKey {V E : Type} (s : State V E) : State V E :=
+  { s with log := [], sentq := s.sentq.mergeSort (fun a b => decide (a ≤ b)), relq := s.relq.mergeSort (fun a b => decide (a ≤ b)) }
+
+def explore {V E : Type} [BEq V] [Hashable V] [BEq E] [Hashable E] (c : Cfg V E) : Expl V E := Id.run do
+  let acts := allActs c.n
+  let mut seen : Std.HashSet (State V E) := {}
+  let mut frontier : Array (State V E) := #[init]
+  seen := seen.insert (normKey init)
+  let mut ex : Expl V E := {}
+  for _ in [0:5 * c.n + 4] do
+    let mut next : Array (State V E) := #[]
+    for s in frontier do
+      ex := { ex with states := ex.states + 1, maxBuf := max ex.maxBuf s.buf.length }
+      match s.main with
+      | .done r => if !ex.results.contains r then ex := { ex with results := r :: ex.results }
+      | _ => pure ()
+      let mut any := false
+      for a in acts do
+        match step c s a with
+        | some s' =>
+          any := true
+          let k := normKey s'
+          if !seen.contains k then
+            seen := seen.insert k
+            next := next.push s'
+        | none => pure ()
+      if !any && !isFinal s then ex := { ex with badDead := true }
+    frontier := next
+  if !frontier.isEmpty then ex := { ex with leftover := true }
+  return ex
+
+def sortStrs (l : List String) : List String := l.mergeSort (fun a b => decide (a ≤ b))
+def sortNats (l : List Nat) : List Nat := l.mergeSort (fun a b => decide (a ≤ b))
+def commas (l : List String) : String := ",".intercalate l
+def natList (s : String) : List Nat := if s = "-" then [] else (s.splitOn ",").map String.toNat!
+
+/-! #### fs ops -/
+
+def parseOut (t : String) : Out Nat Nat :=
+  if t.startsWith "o" then .ok (t.drop 1).toNat! else .err (t.drop 1).toNat!
+
+def parseOuts (s : String) : List (Out Nat Nat) := if s = "-" then [] else (s.splitOn ",").map parseOut
+
+def errStr (k : Nat) : String := s!"e{k}"
+
+def showRes : Res Nat Nat → String
+  | .ok v => s!"ok:{v}"
+  | .err es => "err:[" ++ commas (sortStrs (es.map errStr)) ++ "]"
+
+def cfgFs (limit : Int) (outs : List (Out Nat Nat)) : Cfg Nat Nat :=
+  { n := outs.length, limit := limit, out := fun j => outs.getD j (.err 0) }
+
+/-- canonical set of results -/
+def showAllowed (rs : List (Res Nat Nat)) : String :=
+  let oks := rs.filterMap fun | .ok v => some v | _ => none
+  let errs := rs.filterMap fun | .err es => some (commas (sortStrs (es.map errStr))) | _ => none
+  if errs.isEmpty then "ok{" ++ commas ((sortNats oks.eraseDups).map toString) ++ "}"
+  else if oks.isEmpty then
+    match errs.eraseDups with
+    | [e] => "err{" ++ e ++ "}"
+    | es => "err-VARIANTS{" ++ "|".intercalate es ++ "}"
+  else "MIXED-ok-and-err"
+
+/-- what the theorems allow at most: any succeeding job's value, else the complete error list -/
+def withinSpec (outs : List (Out Nat Nat)) (rs : List (Res Nat Nat)) : Bool :=
+  let oks := outs.filterMap fun | .ok v => some v | _ => none
+  let errs := sortStrs ((errsOf outs).map errStr)
+  !rs.isEmpty && rs.all fun
+    | .ok v => oks.contains v
+    | .err es => oks.isEmpty && sortStrs (es.map errStr) == errs
+
+def intOf (s : String) : Int := if s.startsWith "-" then - ((s.drop 1).toNat! : Int) else (s.toNat! : Int)
+
+def flags {V E : Type} (n : Nat) (ex : Expl V E) : String :=
+  (if ex.badDead then " MODEL-DEADLOCK" else "") ++ (if ex.leftover then " MODEL-BOUND-EXCEEDED" else "") ++
+  (if ex.maxBuf > n then " MODEL-BUFFER-OVERFLOW" else "")
+
+def dbg {V E : Type} (ex : Expl V E) : String := s!" states={ex.states}"
+
+def fsAllowed (limit : Int) (outs : List (Out Nat Nat)) : String :=
+  if outs.length > 5 then "skip" else
+  let c := cfgFs limit outs
+  let ex := explore c
+  showAllowed ex.results ++ (if withinSpec outs ex.results then "" else " MODEL-LAYERS-DISAGREE") ++ flags c.n ex ++ dbg ex
+
+def fsLine (limit : Int) (outs : List (Out Nat Nat)) (order : List Nat) (allowed : String) : String :=
+  let c := cfgFs limit outs
+  let (_, s, m) := prioRun c order (5 * c.n + 4) init [] 0
+  let res := match s.main with
+    | .done r => showRes r
+    | _ => "MODEL-NOT-DONE"
+  let stuck := if isFinal s then "" else " MODEL-NOT-FINAL"
+  s!"res={res} eff={if s.log.isEmpty then "-" else commas (s.log.map toString)} maxrun={m} allowed={allowed}{stuck}"
+
+/-! #### find ops -/
+open FindEpoch
+
+def parseKind : String → Kind
+  | "nb" => .noBucket | "hf" => .hasFalse | "he" => .hasErr false | "hn" => .hasErr true
+  | "hit" => .hit | _ => .falsePos
+
+def parseEps (s : String) : List (Nat × Kind) :=
+  if s = "-" then [] else (s.splitOn ",").map fun t =>
+    match t.splitOn ":" with
+    | [a, b] => (a.toNat!, parseKind b)
+    | _ => (0, .noBucket)
+
+def jerrStr : JErr → String
+  | .notFound => "nf"
+  | .hasFailed e false => s!"he{e}"
+  | .hasFailed e true => s!"hn{e}"
+
+def showFind : FindRes → String
+  | .found e => s!"found:{e}"
+  | .notFound => "notfound"
+  | .internal es => "internal:[" ++ commas (sortStrs (es.map jerrStr)) ++ "]"
+
+def findLine (limit : Int) (eps : List (Nat × Kind)) : String :=
+  if eps.length > 5 then "class=skip allowed=skip" else
+  let c := cfgOf limit eps
+  let ex := explore c
+  let outs := ex.results.map (fun r => showFind (findResult eps r))
+  let outs := sortStrs outs.eraseDups
+  let founds := outs.filter (·.startsWith "found:")
+  let cls :=
+    if founds.length = outs.length ∧ outs.length > 1 then "found:*"
+    else match outs with
+      | [o] => o
+      | _ => "MODEL-AMBIGUOUS"
+  s!"class={cls} allowed=" ++ "|".intercalate outs ++ flags c.n ex
+
 def run (lines : Array String) : IO Unit := do
   let out ← IO.getStdout
-  for _ in lines do
-    out.putStrLn "unimplemented"
+  let mut lastKey := ""
+  let mut lastAllowed := ""
+  for l in lines do
+    match words l with
+    | ["fs", lim, outs, order] =>
+      let key := lim ++ " " ++ outs
+      if key != lastKey then
+        lastAllowed := fsAllowed (intOf lim) (parseOuts outs)
+        lastKey := key
+      out.putStrLn (fsLine (intOf lim) (parseOuts outs) (natList order) lastAllowed)
+    | ["find", lim, eps] => out.putStrLn (findLine (intOf lim) (parseEps eps))
+    | _ => out.putStrLn "bad-op"
 
 end DrvC18
